@@ -426,6 +426,28 @@ fn check_grid_from_rows(c: &Rows, rec: &mut Rec) -> Verdict {
         if iterated.len() != c.rows.len() {
             return Verdict::fail("C19:grid-from-rows:iter", "iteration count");
         }
+        // the rows in order, however the grid's row iterator is driven (nth, skip, step_by, last, rev where offered)
+        {
+            let n = g.rows.len();
+            let j = if n == 0 { 0 } else { (key_of(&format!("{:?}", c.rows.len())) as usize + n / 2) % n };
+            let same = |it: Vec<&Dict>, want: Vec<&Dict>| it.len() == want.len() && it.iter().zip(want.iter()).all(|(a, b)| std::ptr::eq(*a, *b));
+            let all: Vec<&Dict> = g.rows.iter().collect();
+            if !same((&g).into_iter().skip(j).collect(), all.iter().skip(j).copied().collect()) {
+                return Verdict::fail("C19:grid-from-rows:iter-skip", format!("(&g).into_iter().skip({j}) does not yield rows {j}.. of {n}"));
+            }
+            if !same((&g).into_iter().step_by(2).collect(), all.iter().step_by(2).copied().collect()) {
+                return Verdict::fail("C19:grid-from-rows:iter-step_by", format!("(&g).into_iter().step_by(2) over {n} rows"));
+            }
+            let mut it = (&g).into_iter();
+            let a = it.nth(j);
+            let b = it.next();
+            if a.map(|x| x as *const Dict) != all.get(j).map(|x| *x as *const Dict) || b.map(|x| x as *const Dict) != all.get(j + 1).map(|x| *x as *const Dict) {
+                return Verdict::fail("C19:grid-from-rows:iter-nth", format!("nth({j}) then next() over {n} rows"));
+            }
+            if (&g).into_iter().last().map(|x| x as *const Dict) != all.last().map(|x| *x as *const Dict) || (&g).into_iter().count() != n {
+                return Verdict::fail("C19:grid-from-rows:iter-last/count", format!("{n} rows"));
+            }
+        }
         // the same through the Value constructor
         if let Value::Grid(g2) = Value::make_grid_from_dicts(rows.clone()) {
             if project_grid(&g2).cols.iter().map(|c| c.name.clone()).collect::<Vec<_>>() != expect {
@@ -443,7 +465,7 @@ fn check_grid_from_rows(c: &Rows, rec: &mut Rec) -> Verdict {
 }
 
 pub fn run(ctx: &mut Ctx) {
-    ctx.rule("exhaustive: 18 kinds x 256 u8 codes x kind names (+ near-miss names): code/name/Display/try_from form a bijection on exactly 18; generated: any constructible value: exactly one of 18 is_* predicates, HaystackKind::from agrees, each TryFrom<&Value> succeeds iff the kind matches and returns the stored payload; dicts with present/absent/wrong-kind keys through every HaystackDict getter; lists of records through Grid::make_from_dicts(_with_meta): rows kept in order, columns = sorted distinct union of keys (record sets of up to ~90 distinct tag names included); non-trivial: value not Null / dict with >= 2 tags / >= 2 rows with different key sets; distinct by Debug");
+    ctx.rule("exhaustive: 18 kinds x 256 u8 codes x kind names (+ near-miss names): code/name/Display/try_from form a bijection on exactly 18; generated: any constructible value: exactly one of 18 is_* predicates, HaystackKind::from agrees, each TryFrom<&Value> succeeds iff the kind matches and returns the stored payload; dicts with present/absent/wrong-kind keys through every HaystackDict getter; lists of records through Grid::make_from_dicts(_with_meta): rows kept in order - also as seen through the grid's row iterator driven by nth / skip / step_by / last / count -, columns = sorted distinct union of keys (record sets of up to ~90 distinct tag names included); non-trivial: value not Null / dict with >= 2 tags / >= 2 rows with different key sets; distinct by Debug");
     enumerate_kinds(ctx);
     let depth = ctx.tier.pick(2, 3) as u32;
     let total = ctx.tier.pick(160_000, 3_200_000);
